@@ -120,6 +120,39 @@ var c13Pools = map[string][]string{
 	"plain":    {"x", "abc", "", "error", "0", "k.dot", "a b", "line\n2"},
 }
 
+// token alphabets for random strings aimed at the hand-written scanners behind a plugin
+var c13FuzzToks = map[string][]string{
+	"tmpl":       {"panic", "panic:", "0x", "goroutine ", " [", ".go:", "created by ", "(", ")", ".", "1", "a", "_", " ", "\t", "fatal error:", "[signal", "<autogenerated>:", "   at ", "---", "==================", "WARNING: DATA RACE", "System.", "Exception", ":", "f"},
+	"hashn":      {"\"", "'", "`", "{", "}", "[", "]", "(", ")", "\\", "a", "1", " ", ".", "@", ":", "/", "-", "\xff"},
+	"utf8esc":    {"\\", "u", "U", "x", "0", "1", "3", "7", "8", "d", "D", "c", "f", "g", "4", "\\\\", "\\x", "\\u", "\\ud8", "\\udc", "\\x4", "\\1"},
+	"k8slog":     {"\\", "n", "\n", "a", "\"", "\\n", " ", "я"},
+	"json":       {"{", "}", "[", "]", "\"", ":", ",", "a", "1", ".", "-", "e", " ", "\\", "u", "null", "true", "\"a\":", "\n"},
+	"time":       {"1", "9", "0", ".", "-", ":", "T", "Z", "+", " ", "2023", "Jan", "/", "e"},
+	"mask":       {"a", "b", "x", "1", "2", " ", "я", "\xff", "@", "."},
+	"csv":        {",", "\"", "\n", "a", " ", "\r", ";", "\"\""},
+	"syslog5424": {"<", "34", ">", "1", " ", "-", "[", "]", "\"", "=", "a", "\\", "2003-10-11T22:14:15.003Z"},
+	"syslog3164": {"<", "34", ">", "Oct", " ", "11", "22:14:15", "h", "a", "[", "]", ":", "1"},
+	"nginx":      {"2022/08/17", " ", "10:49:27", "[", "error", "]", "1", "#", ":", "*", ",", "a", "client"},
+	"postgres":   {"a", " ", "[", "]", "=>", "=", ",", "1", "-", "client", "db", "user", "LOG:", "2021-06-22", "GMT"},
+	"join":       {"panic:", " ", "\t", "a", "start", "x", "y", "\n"},
+	"re2":        {"2023-10-30", " ", "x", "y", "1", "a", "\xff", "я"},
+	"level":      {"info", "warn", "err", " ", "3", "I", "O"},
+}
+
+func c13FuzzString(r *hx.Rng, c c13Cfg) (string, bool) {
+	for _, p := range c.pool {
+		if toks, ok := c13FuzzToks[p]; ok {
+			n := r.Range(0, 9)
+			var sb strings.Builder
+			for i := 0; i < n; i++ {
+				sb.WriteString(toks[r.Intn(len(toks))])
+			}
+			return sb.String(), true
+		}
+	}
+	return "", false
+}
+
 // ---------------------------------------------------------------- tree helpers
 
 func c13SelPath(sel string) []string { return cfg.ParseFieldSelector(sel) }
@@ -366,7 +399,7 @@ func c13Systematic(plugin string) []c13Cfg {
 		out = append(out, mk(m{"fields": []any{"a"}}, "plain", "a"), mk(m{"fields": []any{"a.b", "c", "a"}}, "plain", "a.b", "c"), mk(m{"fields": []any{"a.b.c", "a.b.d", "x.y", "level"}}, "plain", "a.b.c", "a.b.d", "level"), mk(m{"fields": []any{"k\\.dot", "ключ"}}, "plain", "k\\.dot"))
 	case "rename":
 		for _, raw := range []string{
-			`{"a":"z"}`, `{"override":"false","a":"b"}`, `{"override":"true","a":"b"}`, `{"a.b":"c","c":"a"}`, `{"a":"a"}`, `{"__a":"b","___b":"c"}`, `{"a":"b","b":"a","override":"true"}`, `{"a.b.c":"a"}`, `{"c.d":"c","override":"true"}`, `{"":"x","a":""}`, `{"a":"b","a":"c"}`, `{"x.y":"q"}`,
+			`{"a":"z"}`, `{"override":"false","a":"b"}`, `{"override":"true","a":"b"}`, `{"a.b":"c","c":"a"}`, `{"a":"a"}`, `{"__a":"b","___b":"c"}`, `{"a":"b","b":"a","override":"true"}`, `{"a.b.c":"a"}`, `{"c.d":"c","override":"true"}`, `{"":"x","a":""}`, `{"a":"b","a":"c"}`, `{"x.y":"q"}`, `{"_":"x"}`, `{"_":""}`, `{"_a":"x","override":"true"}`,
 		} {
 			out = append(out, c13Cfg{plugin: plugin, raw: raw, paths: []string{"a", "b", "c", "a.b", "a.b.c", "c.d", "_a", "__b"}, pool: []string{"plain"}})
 		}
@@ -669,7 +702,9 @@ func c13RandomSeq(r *hx.Rng, c c13Cfg) []c13EvTok {
 			evs = append(evs, c13TreeEv(jt.GenValue(r, jt.GenCfg{MaxDepth: 4, MaxWidth: 5, BadUTF8: true})))
 		default:
 			var v *jt.Tree
-			if r.Chance(2, 3) {
+			if fs, ok := c13FuzzString(r, c); ok && r.Chance(2, 5) {
+				v = jt.S(fs)
+			} else if r.Chance(2, 3) {
 				v = jt.S(pool[r.Intn(len(pool))])
 			} else {
 				v = gen[r.Intn(len(gen))]
@@ -712,9 +747,9 @@ func genC13(w *bufio.Writer, rng *hx.Rng, tier string) {
 	sort.Strings(names)
 	fmt.Fprintf(w, "c13.registry %d %s\n", len(names), strings.Join(names, " "))
 
-	nRandCfg, nSeqPerCfg, chunk := 6, 3, 14
+	nRandCfg, nSeqPerCfg, chunk := 40, 5, 14
 	if full {
-		nRandCfg, nSeqPerCfg, chunk = 60, 8, 14
+		nRandCfg, nSeqPerCfg, chunk = 1200, 10, 14
 	}
 	for _, p := range c13Plugins {
 		for _, c := range c13Systematic(p) {
